@@ -31,8 +31,8 @@ Definition spec_failing (d a : string -> bool) (o : ropts) (op : operation) : li
 
 Definition judge (k : c07case) : N :=
   let d n := str_in n (k_declared k) in
-  let a n := str_in n (k_auth_ok k) in
   let o := k_opts k in
+  let a n := o_has_auth o && str_in n (k_auth_ok k) in   (* no callback: nothing is accepted *)
   let m := validate_request d a o (k_op k) in
   let calls := auth_calls d a o (k_op k) in
   let sp := request_spec d a o (k_op k) in
@@ -44,7 +44,5 @@ Definition judge (k : c07case) : N :=
                (negb (o_multi o) || parts_same_set (g_parts k) (spec_failing d a o (k_op k))) &&
                (* in single-error mode the reported part is one of the failing ones *)
                (o_multi o || forallb (fun p => part_in p (spec_failing d a o (k_op k))) (g_parts k)) in
-  let gc : N := if negb (g_no_path_query o (k_op k)) then 1%N else if negb (g_auth_configured o (k_op k)) then 2%N else 0%N in
-  if agree then (if same then J_OK else if N.eqb gc 0 then J_DRIFT else J_NOTE)
-  else if same && negb (N.eqb gc 0) then J_KNOWN gc
-  else J_VIOL.
+  (* no recorded class is left for C07 (classes 1 and 2 were repaired in /repo) *)
+  if agree then (if same then J_OK else J_DRIFT) else J_VIOL.
